@@ -167,7 +167,7 @@ class ArmChecker:
                           and any(self_field(t) in POSE_SOURCES + (POSE, BODY) for t in (n.targets if isinstance(n, ast.Assign) else [n.target]))]
             if own_writes:
                 writers.add(name)
-            if name in HELPERS or name.startswith('_'):
+            if name in HELPERS or (name.startswith('_') and not name.startswith('__')):
                 continue
             bad = {}
             exits = self.run_method(fi, frozenset())
